@@ -4,7 +4,9 @@ package harness
 
 import (
 	"context"
+	"encoding/json"
 	"fmt"
+	"os"
 	"sync"
 	"sync/atomic"
 	"testing"
@@ -347,6 +349,10 @@ func TestC13Replay(t *testing.T) {
 		}
 		synctest.Test(t, func(t *testing.T) { obs = runC13Virtual(&c) })
 		judgeC13(&c, obs, o)
+		if os.Getenv("VERIF_DEBUG") != "" {
+			b, _ := json.Marshal(obs)
+			t.Logf("obs: %s", b)
+		}
 		rec.Eval(&c, o)
 	}
 }
